@@ -20,6 +20,7 @@ RULE = (
     "double-width char of the same formatting) == cells(f); differential: greedy reference wrap gives the same partition of "
     "base cells. Non-trivial: >=2 lines and (a padding space or a run boundary exactly at a line boundary)."
     ' Hypothesis inputs go up to 70 runs / 150 characters per run, column limits up to 132, and are also built by repetition of the same run objects (f * n) and other derivations from observed parents.'
+    ' Two results for different widths consumed alternately must each yield what they yield alone.'
 )
 ASSUMPTIONS = [
     "character widths: wcwidth package restricted to an alphabet on which it agrees with cwcwidth (checked at start)",
